@@ -1,21 +1,40 @@
 import time, vf
 PID = "C03"
-NSCRIPTS = 46
+NSCRIPTS = 67          # harness.cpp main(): 1 + 3*(1+2*7) + 3*(1+2*3)
+NCFG = 7
 def main(tier, args):
     t0 = time.time()
     exe = vf.build("C03/fdevents", [vf.VERIF + "/checks/C03/harness.cpp"], vf.module_sources("event"), mode="asan",
                    plain_srcs=[vf.VERIF + "/engine/sched/log_stub.cpp"])
-    depth, dl, chunk = (4, 80, 7) if tier == "quick" else (7, 1300, 3)
+    # lane 0 = base menu, all scripts; lane 1 = life-cycle menu (re-initialise / re-create / close peer; at most 2 of them per history) on the scripts the harness selects for it.
+    # One process per (configuration, lane, partition of the first operation): evaluations that do not depend on the script are shared inside a process.
+    depth, depth1, dl, np0, np1, cap = (5, 4, 80, 1, 3, 60000) if tier == "quick" else (7, 5, 1300, 3, 4, 300000)
     res = vf.Result(); log = open(vf.BUILD + "/C03/log.txt", "w")
     jobs = []
-    for cfg in (0, 1, 2, 3, 4, 5):
-        for s in range(0, NSCRIPTS, chunk):
-            jobs.append(("cfg%d:s%d" % (cfg, s), [exe, str(cfg), str(depth), str(s), str(s + chunk - 1)]))
+    for cfg in range(NCFG):
+        for part in range(np1):
+            jobs.append(("cfg%d:life-cycle:p%d" % (cfg, part), [exe, str(cfg), str(depth1), "0", str(NSCRIPTS - 1), "1", str(part), str(np1)]))
+    for cfg in range(NCFG):
+        for part in range(np0):
+            jobs.append(("cfg%d:base:p%d" % (cfg, part), [exe, str(cfg), str(depth), "0", str(NSCRIPTS - 1), "0", str(part), str(np0)]))
     if args.only: jobs = [j for j in jobs if j[0] == args.only]
-    vf.run_procs(res, jobs, env={"VERIF_DEADLINE_S": str(dl), "VERIF_WORKERS": "2"}, log=log, jobs=16)
+    vf.run_procs(res, jobs, env={"VERIF_DEADLINE_S": str(dl), "VERIF_C03_SHARED_CAP": str(cap)}, log=log, jobs=16)
     vf.finish(PID, tier, res, t0,
-              rule="BFS over all histories (depth %d) of enable/disable/feed/drain/pass on 6 configurations of 3 real FdEvents (shared descriptor, read/write/read|write masks, persistent and one-shot, pipes and a socketpair) x 46 callback scripts "
-                   "(disable self; disable/enable/destroy another event on the same or on another descriptor ready in the same pass; destroy + create a new event on a third descriptor; destroy + close; disable/destroy one event and enable a third one in the same callback), "
-                   "each history executed on BOTH back-ends in a forked child under ASan with per-fd records de-pooled; oracle: model-enabled at callback time, poll() snapshot readiness, one-shot disabled in callback, no exception, "
-                   "isEnabled agrees, and epoll == select callbacks per pass for order-independent scripts" % depth,
-              assumptions=["readiness is the poll(fd,0) snapshot taken immediately before the pass (DESIGN 1.7)", "a closed descriptor's number is not reused within the same pass", "events do not delete themselves inside their own callback (asserted illegal by the code)"])
+              rule="BFS over all histories (depth %d) of enable/disable/feed/drain/pass on 7 configurations of 3 real FdEvents (shared descriptor, read/write/read|write/read|except/except-only masks, persistent and one-shot, pipes and a socketpair) x 67 callback scripts "
+                   "(disable self; re-arm self (one-shot enable / persistent disable+enable); disable/enable/disable+enable/destroy another event on the same or on another descriptor ready in the same pass; destroy + create a new event on a third descriptor or on the SAME descriptor; "
+                   "destroy + close; re-initialise another event onto a third descriptor and enable it; disable/destroy one event and enable a third one in the same callback; scripts that are images of an earlier script under a renaming of identical events are skipped); "
+                   "plus a life-cycle lane (depth %d; scripts none/disable-self/re-arm-self/destroy/enable) whose menu adds, at most twice per history, initialize() again onto the next descriptor or with the next mask (also on an enabled event, which must change nothing), "
+                   "destroy+re-create an event, and closing the peer of a pipe (EOF/HUP readiness). A pipe that already holds a byte is not fed again and an empty one is not drained (harness-side no-ops). "
+                   "Each evaluated history runs in a forked child under ASan on FOUR loops: epoll and select with per-fd records de-pooled, epoll and select with the record pool as shipped (recycling) and a 2-entry epoll_wait array (growth branch). "
+                   "An evaluation in which the script's actor was never called does not depend on the script and is executed once per process and shared between its scripts (counter evaluations_shared_between_scripts; 'executions' counts forked children only); "
+                   "every script is explored to depth-1 first and then to the full depth re-using the first round. "
+                   "State key = model + kernel readiness + every event's fd/mask/flags + per-fd record ref/counters/subscriber ORDER + pool occupancy + epoll interest masks as held by the implementation and by the kernel (/proc/self/fdinfo), sent as a 128-bit digest. "
+                   "Oracle: model-enabled and alive at callback time, reported conditions within the poll() snapshot (read/write/except), one-shot disabled in callback, never twice per pass, no exception, isEnabled agrees; "
+                   "in every pass in which the script's actor was not called or acts only on itself the callbacks must equal {enabled events whose descriptor is ready for a subscribed condition} with exactly those conditions; "
+                   "and all four loops deliver the same callbacks per pass up to the first pass in which the actor was called while more than one descriptor was served" % (depth, depth1),
+              assumptions=["readiness is the poll(fd,0) snapshot taken immediately before the pass (DESIGN 1.7); EOF/HUP counts as readable",
+                           "a closed descriptor's number is not reused within the same pass; no event is left on a descriptor that gets closed",
+                           "events do not delete themselves inside their own callback (asserted illegal by the code)",
+                           "initialize() on an enabled event changes nothing (the code refuses it); a re-initialised event keeps its persistent/one-shot mode",
+                           "peer close is produced on pipes only (error/HUP on the write side of a socket is reported differently by the two kernel interfaces by design)",
+                           "the code under test is deterministic for a given history (sharing of script-independent evaluations relies on it, as replaying does)"])
